@@ -97,7 +97,7 @@ pub fn walk(ctx: &mut Ctx, g: &Guarded, h: &Multiboot2Header) {
         }
     }
     // provided Iterator methods on fresh iterators
-    for k in [0, 1, n.saturating_sub(1), n, n + 1] {
+    for k in [0, 1, n.saturating_sub(1), n, n + 1, n + 2, n + 3, n + 7] {
         let v = match guard(|| h.iter().nth(k)) {
             Ok(Some(t)) => format!("VAL {}", view(g, t)),
             Ok(None) => "VAL none".to_string(),
